@@ -9,8 +9,8 @@
 (*                                            DefaultNormalization Unmapped*)
 (*   ufo2fontir/src/toir.rs to_ir_axis        AxisOf                       *)
 (*   glyphs2fontir/src/toir.rs to_ir_axis     GlyphsCase                   *)
-(*   fontbe/src/avar.rs to_segment_map        AvarExact / AvarUnits        *)
-(*   fontbe/src/fvar.rs                       FvarOf, InstanceUser         *)
+(*   fontbe/src/avar.rs to_segment_map        AvarExact, SegUnits          *)
+(*   fontbe/src/fvar.rs                       Expected.fvar, .instUser     *)
 (*                                                                         *)
 (* One state per axis definition (a "case").  The state carries the case   *)
 (* and everything the spec derives from it (`x`); the invariants are the   *)
@@ -23,7 +23,7 @@ EXTENDS Integers, Sequences, FiniteSets, TLC, Json, IOUtils, RationalC
 CONSTANTS
     Source,     \* "enum": mapped axes enumerated from UVals/DVals; "unmapped": axes without <map>, every
                 \* min <= default <= max over UVals; "both"; "file": cases read from the ndjson file named by
-                \* the environment variable C08_CASES
+                \* the environment variable C08_CASES (fixture axes); "all" = "both" + "file"
     UVals,      \* user coordinates of mapping nodes are k/Den, k \in UVals (naturals)
     DVals,      \* design coordinates of mapping nodes are k/Den, k \in DVals
     Den,        \* 2: integer and half values
@@ -289,12 +289,15 @@ UnmappedCase(a, b, d) ==
 EnumShapes == {[kind |-> "enum", us |-> SortedInts(S)] : S \in {T \in SUBSET UVals : Cardinality(T) \in NMin..NMax}}
 UnmappedShapes == {[kind |-> "unmapped", a |-> a] : a \in UVals}
 
+FileShapes == LET all == ndJsonDeserialize(IOEnv.C08_CASES)
+              IN {[kind |-> "file", i |-> i] : i \in 1..Len(all)}
+
 Shapes ==
     CASE Source = "enum" -> EnumShapes
       [] Source = "unmapped" -> UnmappedShapes
       [] Source = "both" -> EnumShapes \cup UnmappedShapes
-      [] Source = "file" -> LET all == ndJsonDeserialize(IOEnv.C08_CASES)
-                            IN {[kind |-> "file", i |-> i] : i \in 1..Len(all)}
+      [] Source = "file" -> FileShapes
+      [] Source = "all" -> EnumShapes \cup UnmappedShapes \cup FileShapes
 
 (***************************************************************************)
 (* A .glyphs source states an axis differently: the user:design mapping    *)
@@ -410,7 +413,7 @@ TwoRoutesExact ==
 \* and within TolUnits once nodes, input and output are F2Dot14 (compared without multiplying:
 \* quant - 2^14*norm in [-tol, tol])
 TwoRoutesQuantised ==
-    IsCase /\ x.valid =>
+    IsCase /\ x.valid /\ c.id[1] # "fixture" =>       \* fixture coordinates (3 digits) overflow 32 bits in e + tol
         \A i \in Grid :
             LET e == QMul(x.norm[i], <<F2DOT14, 1>>)
             IN /\ QLe(x.quant[i], QAdd(e, x.tolU))
